@@ -108,7 +108,8 @@ def check(ctx, tier):
     for cs in sites:
         kw = {k.arg: k.value for k in cs.node.keywords}
         for field in ("st_property", "cardinality", "probability", "n_occurences", "is_inverse"):
-            v = kw.get(field)
+            from ..rules.count import _expand
+            v = _expand(cs.func, kw.get(field)) if kw.get(field) is not None else None      # `d = self._dominant_constraint; d.x` reads the same
             ok = isinstance(v, ast.Attribute) and v.attr == field and is_self_attr(v.value, "_dominant_constraint")
             obs.append(Ob("D-d", "R-FLOW", "R-FLOW|or-copies-dominant|%s|%s" % (cs.func.short, field), cs.func.loc(cs.node), ok,
                           "the OR statement copies %s from the dominant constraint" % field if ok else
